@@ -67,17 +67,7 @@ Lemma goodP_impl {X} (P Q : X -> N -> Prop) o : (forall x p, P x p -> Q x p) -> 
 Proof. destruct o as [[x p]| |]; cbn [goodP fst snd]; auto. Qed.
 
 Lemma serialize_no_panic_any_size m a p : a_cstrs a = [] -> BinFormat.serialize m a <> Panic p.
-Proof.
-  intros Hc. unfold BinFormat.serialize, BinFormat.serialize_k. rewrite Hc.
-  change (isort (fun x y : bytes * list N => bytes_leb (fst x) (fst y)) []) with (@nil (bytes * list N)).
-  cbn [cstr_pool]. change (pad_to 4 (p_raw pool_empty)) with (@nil N). intros H.
-  apply bind_Panic_inv in H. destruct H as [H|(d1 & _ & H)]; [exact (poke_all_no_panic _ _ _ _ H)|].
-  destruct (emit_labels _ pool_empty []) as [tp1 rl].
-  apply bind_Panic_inv in H. destruct H as [H|([[d2 tp2] g] & _ & H)]; [exact (emit_text_no_panic _ _ _ _ _ _ _ H)|].
-  apply bind_Panic_inv in H. destruct H as [H|(dsz & _ & H)]; [|discriminate].
-  change (lenN []) with 0 in H. change (trunc_w 32 0) with 0 in H.
-  rewrite add_w_ok in H; [discriminate|]. unfold trunc_w, maxw. pose proof (N.mod_lt (size a) (2 ^ 32)). lia.
-Qed.
+Proof. intros _. unfold BinFormat.serialize. apply serialize_no_panic_all. Qed.
 
 (* ================================================================== animation-set files *)
 Module ASetT.
